@@ -88,41 +88,43 @@ type GhostAssign struct {
 }
 
 type Contract struct {
-	Pkg          string // package path
-	Name         string // relative function name, e.g. (*mapSnapshot).putCommonWithTimedType
-	Extern       bool   // assumed, not checked
-	Lemma        bool   // proof function (lives in overlay)
-	Mode         string // bv | math
-	NoOvf        string // reason if overflow obligations are assumed away in math mode
-	Requires     []Clause
-	Ensures      []Clause
-	Callback     map[string][]Clause // assumed postconditions of calls through a function-typed parameter
-	Assumed      []Clause            // postconditions assumed at call sites but not checked on the body (listed as assumptions)
-	Checks       []Clause            // trusted contracts: the clauses that ARE proved on the body (the `ensures` of a trusted contract stay assumed)
-	Modifies     []string            // component selectors; "*" = everything; empty = nothing
-	ModAll       bool
-	Loops        map[int]*LoopSpec
-	GhostEx      []GhostAssign
-	Pure         bool // extern: no heap effect (same as empty modifies), result fresh
-	Fresh        bool // extern: result is a freshly allocated object
-	File         string
-	Line         int
-	Replay       string
-	Opaque       bool // never inline, even at spec level
-	NoPanic      bool // extern: listed for documentation
-	Props        []string
-	Trusted      string // non-empty: contract is assumed, reason
-	ReplayIn     []ReplayInput
-	Targets      []string            // interface-method contracts: implementers to verify (others stay assumed)
-	ReplayBd     []*SExpr            // extra constraints used only to obtain small counterexamples for replay
-	Uses         []string            // lemmas / axioms assumed while verifying this function
-	Dispatch     map[string][]string // interface type name -> allowed dynamic types (proved at each invoke)
-	Recovers     bool                // the function must call the builtin recover() directly (it is meant to run deferred)
-	ClosureFirst [][2]string         // (ordinal of the function literal, callee) structural obligations
-	Bounded      string              // name of the bounded stand-in harness (no deductive verification of this function)
-	BoundedWhy   string
-	PanicAssumed bool     // trusted contracts only: panic(...) sites of the body are assumed unreachable (listed as an assumption)
-	Defers       []string // functions this function must defer unconditionally (in its entry block)
+	Pkg            string // package path
+	Name           string // relative function name, e.g. (*mapSnapshot).putCommonWithTimedType
+	Extern         bool   // assumed, not checked
+	Lemma          bool   // proof function (lives in overlay)
+	Mode           string // bv | math
+	NoOvf          string // reason if overflow obligations are assumed away in math mode
+	Requires       []Clause
+	Ensures        []Clause
+	Callback       map[string][]Clause // assumed postconditions of calls through a function-typed parameter
+	Assumed        []Clause            // postconditions assumed at call sites but not checked on the body (listed as assumptions)
+	Checks         []Clause            // trusted contracts: the clauses that ARE proved on the body (the `ensures` of a trusted contract stay assumed)
+	Modifies       []string            // component selectors; "*" = everything; empty = nothing
+	ModAll         bool
+	Loops          map[int]*LoopSpec
+	GhostEx        []GhostAssign
+	Pure           bool // extern: no heap effect (same as empty modifies), result fresh
+	Fresh          bool // extern: result is a freshly allocated object
+	File           string
+	Line           int
+	Replay         string
+	Opaque         bool // never inline, even at spec level
+	NoPanic        bool // extern: listed for documentation
+	Props          []string
+	Trusted        string // non-empty: contract is assumed, reason
+	ReplayIn       []ReplayInput
+	Targets        []string            // interface-method contracts: implementers to verify (others stay assumed)
+	ReplayBd       []*SExpr            // extra constraints used only to obtain small counterexamples for replay
+	Uses           []string            // lemmas / axioms assumed while verifying this function
+	Dispatch       map[string][]string // interface type name -> allowed dynamic types (proved at each invoke)
+	Recovers       bool                // the function must call the builtin recover() directly (it is meant to run deferred)
+	AlwaysSends    bool                // structural: every return is dominated by a blocking channel send of the function itself
+	StructuralOnly string              // reason why the body is not executed symbolically (only structural obligations are decided)
+	ClosureFirst   [][2]string         // (ordinal of the function literal, callee) structural obligations
+	Bounded        string              // name of the bounded stand-in harness (no deductive verification of this function)
+	BoundedWhy     string
+	PanicAssumed   bool     // trusted contracts only: panic(...) sites of the body are assumed unreachable (listed as an assumption)
+	Defers         []string // functions this function must defer unconditionally (in its entry block)
 }
 
 type ReplayInput struct {
@@ -589,6 +591,13 @@ func (db *SpecDB) loadText(path, text, pkgHint string) error {
 					alts = append(alts, strings.TrimSpace(a))
 				}
 				cur.Dispatch[strings.TrimSpace(rest[:col])] = alts
+			case "always-sends":
+				cur.AlwaysSends = true
+			case "structural-only":
+				cur.StructuralOnly = strings.TrimSpace(rest)
+				if cur.StructuralOnly == "" {
+					cur.StructuralOnly = "no reason given"
+				}
 			case "closure-calls-first":
 				// `closure-calls-first <N> <callee>`: the N-th function literal of the body starts (after its defers) with a
 				// call of callee — structural, like `defers`: nothing that can fail or return runs before it
